@@ -115,7 +115,7 @@ def extra_run(tier, seed, tag):
         ran = diffs = reports = 0
         for k in range(n):
             nif = rng.choice([1, 2, 2, 3])
-            ifaces = [('vif%d' % i, '02aabbccdd%02x' % (i + 1), rng.choice([576, 577, 1500, 4000, rng.randint(576, 4000)]), 'c0a801%02x' % (5 + i)) for i in range(nif)]
+            ifaces = [('vif%d' % i, '02aabbccdd%02x' % (i + 1), rng.choice([576, 577, 1500, 4000, 9000, 9216, rng.randint(576, 9216)]), 'c0a801%02x' % (5 + i)) for i in range(nif)]
             frames = []
             for i, (_, mac, mtu, _) in enumerate(ifaces):
                 for _ in range(rng.randint(5, 60)):
